@@ -12,7 +12,7 @@ probe log for "never run again while held"; len(cells) for element identity.
 import random
 
 from .. import env
-from ..mxutil import mx, reset_session, sanity
+from ..mxutil import mx, reset_session, sanity, val
 from ..live import World
 from ..gen import ModelGen, spellings
 from .. import refmodel as R
@@ -38,10 +38,17 @@ def gen_cases(tier, seed):
     for i in range(n):
         yield {"id": "m%d" % i, "seed": env.derive_seed(seed, ID, i), "orders": orders,
                "itemspaces": i % 3 == 0, "inheritance": i % 2 == 0}
+    # binding grid: every signature of 1-4 parameters with defaults on a suffix x every way of writing a call
+    from .. import bindgrid
+    reps = 2 if tier == "quick" else 12
+    for j, ps in enumerate(bindgrid.signatures()):
+        for r in range(reps):
+            yield {"id": "b%d_%d" % (j, r), "kind": "bind", "params": ps, "seed": env.derive_seed(seed, ID, "b", j, r),
+                   "cached_caller": r % 2 == 0}
 
 
 def expand(case):
-    if "ops" in case:
+    if "ops" in case or case.get("kind") == "bind":
         return case
     rnd = random.Random(case["seed"])
     g = ModelGen(rnd, itemspaces=case.get("itemspaces", False), inheritance=case.get("inheritance", True)).build()
@@ -61,7 +68,96 @@ def build(ops):
     return w, rejected
 
 
+def run_bind(case):
+    """calls that bind to the same arguments denote the same element; the value is that of the plain function"""
+    from .. import bindgrid as B
+    params = case["params"]
+    rnd = random.Random(case["seed"])
+    reset_session()
+    vio = []
+    cnt = {"value_checks": 0, "spelling_checks": 0, "reexec_checks": 0, "bind_spellings": 0, "bind_in_formula": 0}
+
+    def V(kind, sig, **d):
+        if len(vio) < 4:
+            vio.append({"kind": kind, "signature": sig, "detail": dict(d, signature=B.sig_text(params))})
+    m = mx.new_model("M")
+    S = m.new_space("S")
+    log = []
+    S.log = log
+    names = [p_ for p_, _ in params]
+    expr = " + ".join("%s * %d" % (n, 10 ** i) for i, n in enumerate(names))
+    tup = "(%s)" % "".join(n + ", " for n in names)
+    S.new_cells("f", formula="def f(%s):\n    log.append(%s)\n    return %s\n" % (B.sig_text(params), tup, expr))
+    plainf = B.plain(params, expr)
+    seen = {}
+    # plan every call first: the callers are created before anything is evaluated (a new cells changes the
+    # namespace of its space and, legitimately, discards what that space holds)
+    T = m.new_space("T")
+    T.S = S
+    plan = []
+    for given in B.choices(params):
+        vals = {n: rnd.randint(1, 4) for n in given}
+        for args, kw in B.spellings(params, vals):
+            text = ", ".join([repr(a) for a in args] + ["%s=%r" % (n, v) for n, v in kw])
+            in_formula = rnd.random() < 0.4
+            if in_formula:
+                T.new_cells("g%d" % len(plan), formula="lambda: S.f(%s)" % text,
+                            is_cached=case.get("cached_caller", True))
+            plan.append((args, kw, text, in_formula))
+    for k, (args, kw, text, in_formula) in enumerate(plan):
+        if True:
+            key = B.bound_tuple(params, args, kw)
+            exp = plainf(*args, **dict(kw))
+            n0 = len(log)
+            if in_formula:
+                got = val(T.cells["g%d" % k])
+                cnt["bind_in_formula"] += 1
+            else:
+                got = val(S.f, *args, **dict(kw))
+            ran = log[n0:]
+            cnt["bind_spellings"] += 1
+            cnt["value_checks"] += 1
+            cnt["spelling_checks"] += 1
+            if got != exp:
+                V("value", "value differs from pure evaluation of the formula", call=text, got=got, expected=exp,
+                  in_formula=in_formula)
+                continue
+            cnt["reexec_checks"] += 1
+            if key in seen:
+                if ran:
+                    V("reexec", "a second spelling ran the formula again", call=text, first=seen[key], ran=ran,
+                      in_formula=in_formula)
+            elif ran != [key]:
+                V("bind", "a call bound other arguments than the plain function binds", call=text, ran=ran,
+                  expected=list(key), in_formula=in_formula)
+            seen.setdefault(key, text)
+            # subscription with the complete argument tuple denotes the same element
+            n0 = len(log)
+            got2 = valsub(S.f, key)
+            cnt["spelling_checks"] += 1
+            if got2 != exp or log[n0:]:
+                V("sub", "subscription with the bound arguments is another element", call=text, key=list(key), got=got2,
+                  expected=exp, ran=log[n0:])
+    def norm(t):
+        return t if isinstance(t, tuple) else (t,)
+    held = {norm(h) for h in S.f}
+    if held != set(seen):
+        V("held", "the held elements are not the distinct bound argument tuples", held=sorted(map(repr, held))[:8],
+          expected=sorted(map(repr, seen))[:8])
+    return {"violations": vio, "counters": cnt, "nontrivial": True, "shape": "bind-" + B.sig_text(params),
+            "matrix": {"binding grid: signature": {B.sig_text(params): cnt["bind_spellings"]}}}
+
+
+def valsub(c, key):
+    try:
+        return c[key if len(key) != 1 else key[0]]
+    except Exception as e:     # noqa
+        return ("ERR", type(e).__name__)
+
+
 def run_case(case):
+    if case.get("kind") == "bind":
+        return run_bind(case)
     case = expand(case)
     rnd = random.Random(case["seed"] ^ 0x5EED)
     vio = []
@@ -216,5 +312,7 @@ def _norm(v):
 
 
 def shrink(case, violations, deadline):
+    if case.get("kind") == "bind":
+        return None
     from ..shrink import shrink_ops
     return shrink_ops(expand(case), run_case, violations, deadline)
